@@ -408,3 +408,27 @@ Example C10_hypotheses_inhabited :
   run_oeops s [OU8 171; OLenDet 2; OBool true] = COk (mkCur [171; 2; 255; 0] 4 3).
 Proof. exact oer_helpers_example. Qed.
 Print Assumptions C10_hypotheses_inhabited.
+
+(** ------------------------------------------------------------------
+    The quantity field of SEQUENCE OF (CGen/GenLogicOerSizes.v): what the generated encoder writes for a fixed or
+    variable SIZE - "nb = COUNT; append_uint8(nb); append_uint(VALUE, nb)" with the pasted COUNT expression - is X.696's
+    quantity (minimum octets, 1..4) for every 0 <= n < 2^32, and ONLY for a COUNT that evaluates to the minimal octet
+    count: the width of the C integer type (1, 2, 4, 8) is refuted at 65536.  harness/c10_sizes.py reads COUNT / VALUE,
+    the decoder's comparison, loop bound and loop-variable type out of the generated C on every run. *)
+From Asn1V Require CGen.GenLogicOerSizes CGen.GenLogicOerSizesProofs.
+
+Theorem C10_quantity_runtime_is_x696 : ltac:(let T := type of Asn1V.CGen.GenLogicOerSizesProofs.quantity_runtime_is_x696 in exact T).
+Proof. exact Asn1V.CGen.GenLogicOerSizesProofs.quantity_runtime_is_x696. Qed.
+Print Assumptions C10_quantity_runtime_is_x696.
+
+Theorem C10_quantity_fixed_is_x696 : ltac:(let T := type of Asn1V.CGen.GenLogicOerSizesProofs.quantity_fixed_is_x696 in exact T).
+Proof. exact Asn1V.CGen.GenLogicOerSizesProofs.quantity_fixed_is_x696. Qed.
+Print Assumptions C10_quantity_fixed_is_x696.
+
+Theorem C10_quantity_count_must_be_minimal : ltac:(let T := type of Asn1V.CGen.GenLogicOerSizesProofs.quantity_count_must_be_minimal in exact T).
+Proof. exact Asn1V.CGen.GenLogicOerSizesProofs.quantity_count_must_be_minimal. Qed.
+Print Assumptions C10_quantity_count_must_be_minimal.
+
+Theorem C10_quantity_type_width_refuted : ltac:(let T := type of Asn1V.CGen.GenLogicOerSizesProofs.quantity_type_width_refuted in exact T).
+Proof. exact Asn1V.CGen.GenLogicOerSizesProofs.quantity_type_width_refuted. Qed.
+Print Assumptions C10_quantity_type_width_refuted.
